@@ -98,8 +98,9 @@ def fget(f, k):
 
 
 def consts(**kw):
-    zero = {k: tables.mode_zero_at(k) for k in range(1, 11)}
-    base = {"Systems": Raw("{}"), "ZeroAt": Raw("<<" + ", ".join("{" + ", ".join(map(str, sorted(zero[k]))) + "}" for k in range(1, 11)) + ">>"),
+    nm = len(tables.MODE_F)
+    zero = {k: tables.mode_zero_at(k) for k in range(1, nm + 1)}
+    base = {"Systems": Raw("{}"), "ZeroAt": Raw("<<" + ", ".join("{" + ", ".join(map(str, sorted(zero[k]))) + "}" for k in range(1, nm + 1)) + ">>"),
             "NSensors": 3, "RefSizes": {1}, "Methods": {"cov_mm"}, "Routines": {"fast"}, "BrExtra": {0},
             "MultiNRef": 1, "MultiCounts": Raw("{}"), "GainPats": {0}, "Pipeline": "single"}
     base.update(kw)
@@ -172,7 +173,7 @@ def check_single(col, t, seed, pipeline):
             return
         # extraction at that order returns those values
         req = [tables.MODE_F[k - 1] for k in sys_]
-        f_e, x_e, p_e, o_e, *_ = ssi.SSI_mpe(req, Fn, Xi, Phi, order, rtol=1e-4)
+        f_e, x_e, p_e, o_e, *_ = ssi.SSI_mpe(req, Fn, Xi, Phi, order)          # default rtol (5 %): close modes stay apart
         if len(f_e) != m or np.abs(np.asarray(f_e) - np.array(req)).max() > TOL_F * max(req):
             col.violation(f"ssi.SSI_mpe/{method}/extraction", f"SSI_mpe at order {order} returned {f_e}, system frequencies {req}", rep)
             return
@@ -188,7 +189,7 @@ def check_single(col, t, seed, pipeline):
             r = alg.result
             if not judge(np.asarray(r.Fn_poles), np.asarray(r.Xi_poles), np.asarray(r.Phi_poles), np.asarray(r.Lambds), type(alg).__name__ + ".run"):
                 return
-            ss.mpe("a", sel_freq=req, order=order, rtol=1e-4)
+            ss.mpe("a", sel_freq=req, order=order)
             bad = None
             if len(r.Fn) != m or np.abs(np.asarray(r.Fn) - np.array(req)).max() > TOL_F * max(req):
                 bad = f"Fn {r.Fn}"
@@ -257,7 +258,7 @@ def check_multi(col, t, seed, pipeline):
         r = alg.result
         if not judge(np.asarray(r.Fn_poles), np.asarray(r.Xi_poles), np.asarray(r.Phi_poles), np.asarray(r.Lambds), type(alg).__name__ + ".run"):
             return
-        ms.mpe("a", sel_freq=req, order=order, rtol=1e-4)
+        ms.mpe("a", sel_freq=req, order=order)
         ok = len(r.Fn) == m and np.abs(np.asarray(r.Fn) - np.array(req)).max() <= TOL_F * max(req)
         if ok:
             for i, k in enumerate(sys_):
@@ -303,13 +304,9 @@ def _chunk(args):
     col = core.Collector()
     for n, ln in enumerate(lines):
         t = json.loads(ln)
-        try:
-            if pipeline in ("single", "real"):
-                check_single(col, t, seed + n, pipeline)
-            else:
-                check_multi(col, t, seed + n, pipeline)
-        except np.linalg.LinAlgError as e:
-            col.violation(f"{pipeline}/raised:LinAlgError", f"{pipeline}: {e!r} for {t['sys']} {t['lays']} {t['par']}", {"pipeline": pipeline, "transition": t, "seed": seed + n})
+        fn = (lambda: check_single(col, t, seed + n, pipeline)) if pipeline in ("single", "real") else (lambda: check_multi(col, t, seed + n, pipeline))
+        core.guarded(col, fn, pipeline, f"{pipeline} pipeline for system {t['sys']}, layouts {t['lays']}, {t['par']}",
+                     {"pipeline": pipeline, "transition": t, "seed": seed + n})
         col.traces += 1
     return col
 
@@ -337,7 +334,7 @@ def run_pipeline(ctx, name, pipeline, cap=None, **kw):
 
 def run_c01(ctx):
     quick = ctx.tier == "quick"
-    pool = [1, 2, 4, 5, 7, 9] if quick else list(range(1, 11))
+    pool = [1, 2, 4, 5, 7, 11] if quick else list(range(1, 12))
     for nsens, sizes, refsizes in (((3, (1, 2), {1, 2}), (4, (2, 3), {2})) if quick else
                                    ((2, (1, 2), {1, 2}), (3, (1, 2, 3), {1, 2, 3}), (5, (2, 4), {2, 3}), (8, (3, 6), {2}))):
         systems, _ = systems_tla(sizes, pool if nsens < 8 else pool[:7])
@@ -349,7 +346,7 @@ def run_c01(ctx):
 
 def run_c03(ctx):
     quick = ctx.tier == "quick"
-    pool = [1, 2, 4, 6, 9] if quick else [1, 2, 3, 4, 6, 7, 9, 10]
+    pool = [1, 2, 4, 6, 11] if quick else [1, 2, 3, 4, 6, 7, 9, 10, 11]
     for nref, cnts, sizes in (((1, "{<<1, 1>>, <<2, 1>>}", (1, 2)), (2, "{<<1, 1>>}", (2, 3))) if quick else
                               ((1, "{<<1, 1>>, <<2, 1>>, <<1, 2, 1>>}", (1, 2, 3)), (2, "{<<1, 1>>, <<2, 1>>, <<1, 1, 1>>}", (2, 3, 4)),
                                (3, "{<<1, 1>>, <<2, 2>>}", (3, 5)))):
